@@ -57,6 +57,16 @@ def search(pid, record):
                     "expected": "a frame, Incomplete or an error"}
         last = [l for l in p.stdout.splitlines() if l.startswith("{")]
         return json.loads(last[-1]) if last else {"found": False}
+    if pid == "C16":
+        for sd in ("1", "2", "3"):
+            h = _run(binary, ["server-shutdown", sd], timeout=300)
+            for line in h.stdout.splitlines():
+                if line.startswith("{") and json.loads(line).get("found"):
+                    w = json.loads(line)
+                    w["scenario"] = "server-shutdown"
+                    w["seed"] = sd
+                    return w
+        return {"found": False}
     if pid == "C10":
         f0 = _run(binary, ["frame-search"])
         for line in f0.stdout.splitlines():
@@ -194,6 +204,10 @@ def execute(w):
         return (not r.get("found")), json.dumps(r)[:700]
     if w.get("scenario") == "store-concurrent":
         p = _run(binary, ["store-concurrent", str(w.get("seed", "1")), "3000"])
+        found = p.returncode != 0 or any(l.startswith("{") and json.loads(l).get("found") for l in p.stdout.splitlines())
+        return (not found), p.stdout.strip()[-700:]
+    if w.get("scenario") == "server-shutdown":
+        p = _run(binary, ["server-shutdown", str(w.get("seed", "1"))], timeout=300)
         found = p.returncode != 0 or any(l.startswith("{") and json.loads(l).get("found") for l in p.stdout.splitlines())
         return (not found), p.stdout.strip()[-700:]
     if w.get("scenario") == "store-closed":
